@@ -1,6 +1,7 @@
 import PugModel.Tpl.Val
 import PugModel.Data.Json
 import PugModel.Fn.Math
+import PugModel.Gen.Tables
 /-
 Model of the runtime helpers (pugjs/runtime.go funcmap, tpl_funcs.go builtins) and of the object model's
 methods (types.go) on `Val`. Errors are explicit: `exec` = s.errorf (ExecError panic), `panic` = any other Go panic,
@@ -199,32 +200,39 @@ def runtimeAdd (h : Heap) (l r : Val) : Option Val :=
     | some a, some b => some (.S (a ++ b))
     | _, _ => none
 
+/-- the kind class runtime.go's switches put a numeric value in -/
+def kindName (v : Val) : String :=
+  match v.kind with
+  | .int => "int"
+  | .float => "float"
+  | _ => "other"
+
+/-- does the Go function `fn` have a case for this pair of kinds, returning `X op Y`? Read from the matrix that the extractor
+    regenerates from runtime.go on every run: a pair the source does not handle falls through to the string "<nil>", in the
+    model exactly as in the code. -/
+def hasCase (fn op : String) (x y : Val) : Bool :=
+  Gen.arithMatrix.contains (fn, kindName x, kindName y, "X " ++ op ++ " Y")
+
 /-- arithmetic helper results before `convert`: a number, or the literal string "<nil>" -/
-def arith (f : Rat → Rat → Option Rat) (x y : Val) : Option Val :=
-  match x.kind, y.kind with
-  | .int, .int | .int, .float | .float, .int | .float, .float =>
+def arith (fn op : String) (f : Rat → Rat → Option Rat) (x y : Val) : Option Val :=
+  if hasCase fn op x y then
     match x.num?, y.num? with
     | some a, some b => (f a b).map Val.N
     | _, _ => none
-  | _, _ => some (.S "<nil>")
+  else some (.S "<nil>")
 
-def runtimeSub (x y : Val) : Option Val := arith (fun a b => some (a - b)) x y
-def runtimeMul (x y : Val) : Option Val := arith (fun a b => some (a * b)) x y
+def runtimeSub (x y : Val) : Option Val := arith "runtimeSub" "-" (fun a b => some (a - b)) x y
+def runtimeMul (x y : Val) : Option Val := arith "runtimeMul" "*" (fun a b => some (a * b)) x y
 /-- division by zero yields ±Inf/NaN in Go: outside the model -/
-def runtimeQuo (x y : Val) : Option Val := arith (fun a b => if b == 0 then none else some (a / b)) x y
+def runtimeQuo (x y : Val) : Option Val := arith "runtimeQuo" "/" (fun a b => if b == 0 then none else some (a / b)) x y
 
 /-- Go `%` on int64 after truncation: sign of the dividend -/
 def goRem (a b : Int) : Int := a.tmod b
 
 def runtimeRem (x y : Val) : Option Val :=
-  match x.kind, y.kind with
-  | .int, .int | .int, .float | .float, .int | .float, .float =>
-    match x.num?, y.num? with
-    | some a, some b =>
-      let bi := Fn.ratTrunc b
-      if bi == 0 then none else some (.N (goRem (Fn.ratTrunc a) bi))
-    | _, _ => none
-  | _, _ => some (.S "<nil>")
+  arith "runtimeRem" "%" (fun a b =>
+    let bi := Fn.ratTrunc b
+    if bi == 0 then none else some ((goRem (Fn.ratTrunc a) bi : Int) : Rat)) x y
 
 def runtimeInc (x : Val) : Val :=
   match x.num? with
